@@ -15,6 +15,8 @@ impl StateMachine<'_> {
             return Ok(false);
         }
         let mut handled_line = false;
+        // A conflict region which the previous commit's last file section left open ends here.
+        self.handle_unterminated_merge_conflict()?;
         self.painter.paint_buffered_minus_and_plus_lines();
         self.handle_pending_line_with_diff_name()?;
         self.state = State::CommitMeta;
